@@ -138,8 +138,8 @@ func fillMessage(c *Chooser, m protoreflect.Message, o *MsgGenOpts, depth int) {
 	case "google.protobuf.Duration":
 		s := Pick(c, int64(0), 1, -1, 315576000000, -315576000000, int64(c.Intn(100000)))
 		n := Pick(c, int32(0), 1, 999999999, 500000000, int32(c.Intn(1000000000)))
-		if s < 0 {
-			n = -n
+		if s < 0 || (s == 0 && c.Bool()) {
+			n = -n // (between -1s and 0 the sign is carried by the nanos alone)
 		}
 		m.Set(md.Fields().ByName("seconds"), protoreflect.ValueOfInt64(s))
 		m.Set(md.Fields().ByName("nanos"), protoreflect.ValueOfInt32(n))
